@@ -87,6 +87,7 @@ ROLES = {
     "SP": (0x20, lambda: [0x20]),
     "TAB": (0x09, lambda: list(range(0x00, 0x20))),
     "DEL": (0x7F, lambda: [0x7F]),
+    "LSEP": (0x2028, lambda: [0x2028, 0x2029, 0x85]),    # White_Space but not Zs
     # 2 bytes
     "eac": (0xE9, lambda: _pool(lambda c: _pv(c) and _ulen(c) == 2 and len(_dec(c).split()) == 2 and not _dec(c).startswith("<")
                                 and c not in db()["lower"] and int(_dec(c).split()[0], 16) < 0x80, 0xC0, 0x24F)),
